@@ -32,7 +32,7 @@ RULE = ("bundled: every unit/spelling/prefix/dimension/group/system/context/defa
 ASSUMPTIONS = ["R is the oracle for the bundled files (validated against the unchanged tree)", "units added by define() after construction are not asked for compatible-unit listings (known finding, C13)"]
 MIN_COUNTS = {"quick": {"generated": {"_evaluations": 60, "with_group": 10, "forward_reference": 10, "group_chain_of_three": 10}, "faults": {"_evaluations": 50}}}
 
-PATHS = ["lines", "file", "define", "import", "cache", "cache_lines"]
+PATHS = ["lines", "file", "define", "import", "cache", "cache_lines", "cache_import"]
 
 
 def tasks(tier, seed):
@@ -190,7 +190,7 @@ def load(model, path, nit, workdir):
     import pint
 
     T = env.NIT[nit]
-    lines, extra = regmodel.render(model, permute=True, split_import=(path == "import"))
+    lines, extra = regmodel.render(model, permute=True, split_import=(path in ("import", "cache_import")))
     if path == "lines":
         return pint.UnitRegistry(lines, non_int_type=T)
     if path == "cache_lines":
@@ -202,6 +202,24 @@ def load(model, path, nit, workdir):
             pass
         pint.UnitRegistry(lines, non_int_type=T, cache_folder=cdir)  # cold for these lines
         return pint.UnitRegistry(lines, non_int_type=T, cache_folder=cdir)  # warm
+    if path == "cache_import":
+        # a file with @import and an on-disk cache: the imported file is edited between two loads (first every factor x 7, then as written)
+        sub = os.path.join(workdir, "ci")
+        os.makedirs(sub, exist_ok=True)
+        fn = os.path.join(sub, "defs.txt")
+        with open(fn, "w", encoding="utf-8") as fh:
+            fh.write("\n".join(lines) + "\n")
+        cdir = os.path.join(sub, "cache")
+        for body_of in (_decoy, lambda b: b):
+            for name, body in extra.items():
+                with open(os.path.join(sub, name), "w", encoding="utf-8") as fh:
+                    fh.write("\n".join(body_of(body)) + "\n")
+            try:
+                ureg = pint.UnitRegistry(fn, non_int_type=T, cache_folder=cdir)
+            except Exception:  # noqa: BLE001
+                if body_of is not _decoy:
+                    raise
+        return ureg
     if path in ("file", "import", "cache"):
         fn = os.path.join(workdir, f"defs_{path}.txt")
         with open(fn, "w", encoding="utf-8") as fh:
@@ -308,12 +326,18 @@ def battery(ureg, model, nit, path):
             f_new = res[new][0]
             base_unit = next(iter(res[new][1]))
             st_, r = attempt(ureg.get_base_units, base_unit, system=s["name"])
+            if st_ == "err" and nit == "Decimal" and Fraction(res[new][1][base_unit]) == 3 and type(r).__name__ == "DimensionalityError":
+                # known finding (narrow class): the exponent 1/3 is not representable in Decimal, (u ** 0.333...) ** 3 has dimension [x] ** 0.999...
+                raise Violation("system_rule_inexact_exponent:Decimal", f"[{path}/{nit}] get_base_units({base_unit}, system={s['name']}) with the rule '{new}' (= {base_unit} ** 3) raised {r!r}")
             if st_ == "err":
                 raise Violation(f"system_unusable:{exc_class(r)}", f"[{path}/{nit}] get_base_units({base_unit}, system={s['name']}) raised {r!r}")
             gf, gu = r
-            if dict(gu._units) != {new: 1}:
-                raise Violation("system_rule_not_as_written", f"[{path}/{nit}] {s['name']}: {base_unit} -> {dict(gu._units)}, rule says {new}")
-            if abs(float(gf) - float(1 / f_new)) > 1e-12 * float(1 / f_new) or (nit == "Fraction" and Fraction(gf) != 1 / f_new):
+            k = Fraction(res[new][1][base_unit])  # new = f_new * base_unit ** k, so base_unit = (new / f_new) ** (1 / k)
+            got_u = {n_: Fraction(e_).limit_denominator(1000) for n_, e_ in gu._units.items()}
+            if got_u != {new: 1 / k}:
+                raise Violation("system_rule_not_as_written", f"[{path}/{nit}] {s['name']}: {base_unit} -> {dict(gu._units)}, rule says {new} ** {1 / k}")
+            want_f = float(f_new) ** (-1.0 / float(k))
+            if abs(float(gf) - want_f) > 1e-9 * want_f or (nit == "Fraction" and k == 1 and Fraction(gf) != 1 / f_new):
                 raise Violation("system_factor_not_as_written", f"[{path}/{nit}] {s['name']}: 1 {base_unit} = {gf!r} {new}, expected {1 / f_new}")
         want_members = set()
         for gname in s["using"]:
